@@ -1,6 +1,6 @@
 (* Props/C06.v — a successful Set is visible and is never lost without a reason (admission part) *)
 From Coq Require Import ZArith List Bool.
-From Verif Require Import Base.Word64 Model.Expiry Model.Store Proof.StoreMap Proof.StoreBasic.
+From Verif Require Import Base.Word64 Model.Expiry Model.Store Proof.StoreMap Proof.StoreBasic Model.Bloom Proof.BloomP Gen.Kernels Proof.KernelSync.
 Import ListNotations.
 Open Scope Z_scope.
 
@@ -47,3 +47,57 @@ Example c06_example :
   snd (sget (set_nowc s2 200) 1 200 0) = [1; 12] /\
   fst (fst (sset3 s2 2 5 11 0 200 222 true)) = s2.
 Proof. vm_compute. repeat split. Qed.
+
+(* ---- the doorkeeper itself ("sees the key for the first time").  In the theorems above its verdict dk is an
+   input; here it is the Bloom filter of internal/bf/bf.go with the shard's reset counter and growth rule
+   (Model/Bloom.v, compared with the real filter on every run). *)
+
+(* after ANY history of attempts and removals on a shard, a key shown to the filter since the filter was last
+   emptied is not rejected - unless this very attempt empties the filter first, which takes more than Capacity
+   (>= 512) first sightings since the previous emptying *)
+Theorem c06_doorkeeper_no_false_rejection : forall ops h,
+  let '(d, seen) := door_hist ops door_new [] in
+  In h seen -> door_resets d = false -> snd (door_attempt d h) = true.
+Proof. exact seen_passes. Qed.
+Print Assumptions c06_doorkeeper_no_false_rejection.
+
+(* Insert answers exactly what Exist would have answered just before; inserting makes the hash present and
+   keeps every other present hash present *)
+Theorem c06_insert_reports_exist : forall d h, WF d -> snd (bf_insert d h) = bf_exist d h.
+Proof. exact insert_reports_exist. Qed.
+Print Assumptions c06_insert_reports_exist.
+Theorem c06_insert_then_exist : forall d h, WF d -> bf_exist (fst (bf_insert d h)) h = true.
+Proof. exact insert_then_exist. Qed.
+Print Assumptions c06_insert_then_exist.
+Theorem c06_insert_keeps : forall d h h', WF d -> bf_exist d h' = true -> bf_exist (fst (bf_insert d h)) h' = true.
+Proof. exact insert_keeps. Qed.
+Print Assumptions c06_insert_keeps.
+
+(* every filter that any history can reach keeps its probes inside its bit vector (nextPowerOfTwo yields 0 or a
+   power of two up to 2^31; the float sizing can only make the filter larger) *)
+Theorem c06_doorkeeper_in_range : forall ops,
+  let '(d, _) := door_hist ops door_new [] in
+  forall h i, 0 <= probe (dr_bf d) h i < bf_m (dr_bf d) /\ probe (dr_bf d) h i / 64 < Z.of_nat (length (bf_words (dr_bf d))).
+Proof. exact hist_in_range. Qed.
+Print Assumptions c06_doorkeeper_in_range.
+
+(* nextPowerOfTwo of the model is the Gallina that goscrape regenerates from internal/bf/bf.go on every run *)
+Theorem c06_np2_is_source : forall i, g_nextPowerOfTwo i = np2 i.
+Proof. exact sync_nextPowerOfTwo. Qed.
+Print Assumptions c06_np2_is_source.
+
+(* and it does keep one-hit wonders out: the first attempt after an emptying is rejected, and a rejected attempt
+   leaves the shard map as it was *)
+Theorem c06_first_sighting_rejected : forall d h, WF (dr_bf d) -> 1 <= bf_k (dr_bf d) -> door_resets d = true -> snd (door_attempt d h) = false.
+Proof. exact first_sighting_rejected. Qed.
+Print Assumptions c06_first_sighting_rejected.
+Theorem c06_rejected_stores_nothing : forall d h, snd (door_attempt d h) = false -> dr_len (fst (door_attempt d h)) = dr_len d.
+Proof. exact rejected_keeps_len. Qed.
+Print Assumptions c06_rejected_stores_nothing.
+
+Example c06_doorkeeper_example :
+  let '(d1, v1) := door_attempt door_new 1311768467463790320 in
+  let '(d2, v2) := door_attempt d1 1311768467463790320 in
+  let '(d3, v3) := door_attempt d2 81985529216486895 in
+  (v1, v2, v3, dr_counter d3, dr_len d3) = (false, true, false, 2, 1).
+Proof. exact door_example. Qed.
